@@ -294,7 +294,7 @@ impl Marlin {
                 }
             }
 //@end
-//@fn id=marlin.check_combinations file=poly-commit/src/marlin/mod.rs scope="impl<E, P, PC> Marlin<E, P, PC>" name=check_combinations props=C06,C05,C04,C17,C02
+//@fn id=marlin.check_combinations file=poly-commit/src/marlin/mod.rs scope="impl<E, P, PC> Marlin<E, P, PC>" name=check_combinations props=C06,C05,C04,C17,C02,C11
     #[verifier::loop_isolation(false)]
     fn check_combinations<'a>(vk: &VK, lc_s: Vec<&'a LinearCombination>, commitments: Vec<&'a LabeledCommitment<Commitment>>, query_set: &BTreeSet<(String, (String, Pt))>, evaluations: &BTreeMap<(String, Pt), Fr>, proof: &BatchLCProof, sponge: &mut Sponge, rng: &mut Rng) -> (res: Result<bool, Error>)
     ensures
@@ -436,7 +436,7 @@ impl Marlin {
             assert(evaluations@ =~= adj_ev(ev0, lcs0, n));
         }
 //@end
-//@fn id=marlin.open_combinations file=poly-commit/src/marlin/mod.rs scope="impl<E, P, PC> Marlin<E, P, PC>" name=open_combinations props=C06,C04,C17
+//@fn id=marlin.open_combinations file=poly-commit/src/marlin/mod.rs scope="impl<E, P, PC> Marlin<E, P, PC>" name=open_combinations props=C06,C04,C17,C11
     #[verifier::loop_isolation(false)]
     fn open_combinations<'a>(ck: &CK, lc_s: Vec<&'a LinearCombination>, polynomials: Vec<&'a LabeledPolynomial>, commitments: Vec<&'a LabeledCommitment<Commitment>>, query_set: &BTreeSet<(String, (String, Pt))>, sponge: &mut Sponge, states: Vec<&'a St>, rng: Option<&mut Rng>) -> (res: Result<BatchLCProof, Error>)
     ensures
@@ -548,13 +548,13 @@ impl Marlin {
 // the scheme-level entry points delegate to the generic Marlin code above
 pub struct MarlinKZG10;
 impl MarlinKZG10 {
-//@fn id=marlin_pc.open_combinations file=poly-commit/src/marlin/marlin_pc/mod.rs scope="impl<E, P> PolynomialCommitment<E::ScalarField, P> for MarlinKZG10<E, P>" name=open_combinations props=C06,C04,C17
+//@fn id=marlin_pc.open_combinations file=poly-commit/src/marlin/marlin_pc/mod.rs scope="impl<E, P> PolynomialCommitment<E::ScalarField, P> for MarlinKZG10<E, P>" name=open_combinations props=C06,C04,C17,C11
     fn open_combinations<'a>(ck: &CK, lc_s: Vec<&'a LinearCombination>, polynomials: Vec<&'a LabeledPolynomial>, commitments: Vec<&'a LabeledCommitment<Commitment>>, query_set: &BTreeSet<(String, (String, Pt))>, sponge: &mut Sponge, states: Vec<&'a St>, rng: Option<&mut Rng>) -> (res: Result<BatchLCProof, Error>)
     ensures
         moc_post(ck, lc_s@, polynomials@, commitments@, query_set@, states@, old(sponge).st@, rng_in(rng), res, final(sponge).st@),   // name=marlin_pc.open_combinations.is_the_generic_marlin_prover props=C06,C04,C17
 //@body
 //@end
-//@fn id=marlin_pc.check_combinations file=poly-commit/src/marlin/marlin_pc/mod.rs scope="impl<E, P> PolynomialCommitment<E::ScalarField, P> for MarlinKZG10<E, P>" name=check_combinations props=C06,C05,C04,C17,C02
+//@fn id=marlin_pc.check_combinations file=poly-commit/src/marlin/marlin_pc/mod.rs scope="impl<E, P> PolynomialCommitment<E::ScalarField, P> for MarlinKZG10<E, P>" name=check_combinations props=C06,C05,C04,C17,C02,C11
     fn check_combinations<'a>(vk: &VK, lc_s: Vec<&'a LinearCombination>, commitments: Vec<&'a LabeledCommitment<Commitment>>, query_set: &BTreeSet<(String, (String, Pt))>, evaluations: &BTreeMap<(String, Pt), Fr>, proof: &BatchLCProof, sponge: &mut Sponge, rng: &mut Rng) -> (res: Result<bool, Error>)
     ensures
         mcc_post(vk, lc_s@, commitments@, query_set@, evaluations@, proof, old(sponge).st@, old(rng).id@, old(rng).pos@, res, final(sponge).st@),   // name=marlin_pc.check_combinations.is_the_generic_marlin_verifier props=C06,C05,C04,C17,C02
@@ -565,13 +565,13 @@ impl MarlinKZG10 {
 // the scheme-level entry points delegate to the generic Marlin code above
 pub struct MarlinPST13;
 impl MarlinPST13 {
-//@fn id=pst13.open_combinations file=poly-commit/src/marlin/marlin_pst13_pc/mod.rs scope="impl<E, P> PolynomialCommitment<E::ScalarField, P> for MarlinPST13<E, P>" name=open_combinations props=C06,C04,C17
+//@fn id=pst13.open_combinations file=poly-commit/src/marlin/marlin_pst13_pc/mod.rs scope="impl<E, P> PolynomialCommitment<E::ScalarField, P> for MarlinPST13<E, P>" name=open_combinations props=C06,C04,C17,C11
     fn open_combinations<'a>(ck: &CK, linear_combinations: Vec<&'a LinearCombination>, polynomials: Vec<&'a LabeledPolynomial>, commitments: Vec<&'a LabeledCommitment<Commitment>>, query_set: &BTreeSet<(String, (String, Pt))>, sponge: &mut Sponge, states: Vec<&'a St>, rng: Option<&mut Rng>) -> (res: Result<BatchLCProof, Error>)
     ensures
         moc_post(ck, linear_combinations@, polynomials@, commitments@, query_set@, states@, old(sponge).st@, rng_in(rng), res, final(sponge).st@),   // name=pst13.open_combinations.is_the_generic_marlin_prover props=C06,C04,C17
 //@body
 //@end
-//@fn id=pst13.check_combinations file=poly-commit/src/marlin/marlin_pst13_pc/mod.rs scope="impl<E, P> PolynomialCommitment<E::ScalarField, P> for MarlinPST13<E, P>" name=check_combinations props=C06,C05,C04,C17,C02
+//@fn id=pst13.check_combinations file=poly-commit/src/marlin/marlin_pst13_pc/mod.rs scope="impl<E, P> PolynomialCommitment<E::ScalarField, P> for MarlinPST13<E, P>" name=check_combinations props=C06,C05,C04,C17,C02,C11
     fn check_combinations<'a>(vk: &VK, linear_combinations: Vec<&'a LinearCombination>, commitments: Vec<&'a LabeledCommitment<Commitment>>, eqn_query_set: &BTreeSet<(String, (String, Pt))>, eqn_evaluations: &BTreeMap<(String, Pt), Fr>, proof: &BatchLCProof, sponge: &mut Sponge, rng: &mut Rng) -> (res: Result<bool, Error>)
     ensures
         mcc_post(vk, linear_combinations@, commitments@, eqn_query_set@, eqn_evaluations@, proof, old(sponge).st@, old(rng).id@, old(rng).pos@, res, final(sponge).st@),   // name=pst13.check_combinations.is_the_generic_marlin_verifier props=C06,C05,C04,C17,C02
